@@ -1452,6 +1452,8 @@ def _desugar_combinators(d, record, max_passes=6):
                     for x in g.get("inlined", []):
                         if x not in f["inlined"]:
                             f["inlined"].append(x)
+                    for jr, jb in g.get("joins", []):
+                        f.setdefault("joins", []).append([out_pl["l"] if (direct and jr == 0) else jr + loff, jb + boff])
                     f.setdefault("spliced_closures", []).append(g["id"])
                     record.setdefault(f["id"], []).append(g["id"])
                     spliced.add(g["id"])
@@ -1750,6 +1752,9 @@ def _inline_unknown_helpers(d, record, max_blocks=120, max_depth=4):
                 f["blocks"].append(nb)
             if direct and ret_to is not None:
                 f.setdefault("joins", []).append([dest["l"], ret_to])
+            # joins recorded inside the helper (it had helpers / combinators of its own) move along
+            for jr, jb in g.get("joins", []):
+                f.setdefault("joins", []).append([dest["l"] if (direct and jr == 0) else jr + loff, jb + boff])
             f.setdefault("inlined", []).append(cid)
             for x in g.get("inlined", []):
                 if x not in f["inlined"]:
